@@ -1129,7 +1129,7 @@ def unpack_named_tuple(spec: ValueSpec) -> Expression:
         )
     for idx, field in field_indices:
         member_type = annotations.get(field, Any)
-        if defaults and not as_dict:
+        if defaults:
             # a member is read into a local first: only its absence may
             # end the scan, not an IndexError raised while converting it
             member_expr = "item"
@@ -1173,19 +1173,12 @@ def unpack_named_tuple(spec: ValueSpec) -> Expression:
     with lines.indent():
         lines.append("fields = []")
         field_type = spec.builder.get_type_name_identifier(spec.type)
-        if as_dict:
+        for member_expr, unpacker in zip(member_exprs, unpackers):
             with lines.indent("try:"):
-                for unpacker in unpackers:
-                    lines.append(f"fields.append({unpacker})")
+                lines.append(f"item = {member_expr}")
             with lines.indent("except IndexError:"):
-                lines.append("pass")
-        else:
-            for member_expr, unpacker in zip(member_exprs, unpackers):
-                with lines.indent("try:"):
-                    lines.append(f"item = {member_expr}")
-                with lines.indent("except IndexError:"):
-                    lines.append(f"return {field_type}(*fields)")
-                lines.append(f"fields.append({unpacker})")
+                lines.append(f"return {field_type}(*fields)")
+            lines.append(f"fields.append({unpacker})")
         lines.append(f"return {field_type}(*fields)")
     lines.append(
         f"setattr({spec.cls_attrs_name}, '{method_name}', {method_name})"
